@@ -7,6 +7,9 @@ CONSTANTS
   MaxBatch = 100
   Protocol = TRUE
   SimLen = 100
+  WRelease = 1
+  WRestart = 1
+  WStatus = 1
 INIT GInit
 NEXT GNext
 VIEW GView
